@@ -137,7 +137,7 @@ def run(ctx):
                    "measured_max_ppm": measured, "thresholds": merged}, open(THR, "w"), indent=1, sort_keys=True)
         ctx.log("calibrated thresholds written to " + THR)
     if not ctx.replay:
-        ctx.oblige("run:all-cases-built", evals >= 84 and growth_n >= 36, "evals=%d growth=%d" % (evals, growth_n))
+        ctx.oblige("run:all-cases-built", evals >= 96 and growth_n >= 42, "evals=%d growth=%d" % (evals, growth_n))
     ctx.coverage["reparse_work_premise"] = {
         "what": "premise of reparse_work_bound_partial: no uncovered node of the new tree fails to reach the edit (stray = 0)",
         "cases_evaluated": len([r for r in table if r["stray_uncovered"] != "-"]),
@@ -145,7 +145,7 @@ def run(ctx):
     ctx.coverage.update({
         "evaluations": evals + growth_n, "distinct_nontrivial": evals,
         "rule": "one evaluation = one (language, document size, edit position) re-parse on the real runtime plus one growth comparison per "
-                "(language, edit position); languages lst, arith, jsonish, stmt the GLR grammar cdecl (dynamic-precedence ambiguity `t * p;` every 40 units) the indentation grammar pyish and markscan (stateful external scanners; markscan's token sits in the middle of statements); sizes 10^3, 10^4 (thorough: 10^5) tokens; positions start, 25 %, "
+                "(language, edit position); languages lst, arith, jsonish, stmt the GLR grammar cdecl (dynamic-precedence ambiguity `t * p;` every 40 units) the indentation grammar pyish and markscan (stateful external scanners; markscan's token sits in the middle of statements) and declscan (STATELESS external scanner; documents without any external token, the edit `7` -> `q!` adds the first one); sizes 10^3, 10^4 (thorough: 10^5) tokens; positions start, 25 %, "
                 "50 %, 75 %, end, inside a 24-deep block; the edit replaces one numeric token (the token sequence changes, the document stays "
                 "error-free, incremental tree == scratch tree is required); every case is non-trivial (>= 10^3 tokens) and distinct by construction",
         "samples": samples, "measurements": table, "measured_max_ppm": measured, "thresholds": thr,
